@@ -10,7 +10,7 @@ theorem rangeCheck_bounds (hash : A → A → Int) (g h : A) (pd : RangePublic A
     (hacc : rangeCheck (𝔾) hash g h pd a b s t x y u v = true) :
     pd.com.c1 = pd.com.c - (a - 1) • g ∧ pd.com.c2 = (b + 1) • g - pd.com.c := by
   simp only [rangeCheck, Bool.and_eq_true, decide_eq_true_eq, ofAdd_eq, ofAdd_div, pow_ofAdd] at hacc
-  exact ⟨hacc.1.1.1.1.1.1.2, hacc.1.1.1.1.1.2⟩
+  tauto
 
 /-- one public datum cannot be accepted for two ranges whose bounds differ modulo the order of g -/
 theorem accept_two_ranges (hash : A → A → Int) (g h : A) (pd : RangePublic A)
@@ -47,7 +47,7 @@ theorem honest_accept_binds (hash : A → A → Int) (g h : A) (value a b : Int)
       · simp at hc
       · simp only [Option.some.injEq, Prod.mk.injEq] at hc
         obtain ⟨rfl, _⟩ := hc
-        simp only [rangeCommit, rangeCommitWith, pow_ofAdd, ofAdd_mul, ofAdd_div] at e
+        simp only [attestAlgebra, pow_ofAdd, ofAdd_mul, ofAdd_div] at e
         obtain ⟨e1, e2⟩ := e
         constructor
         · have h3 : (a - 1) • g = (a' - 1) • g := sub_right_injective e1
@@ -67,19 +67,18 @@ theorem order_shift_accepted' (hash : A → A → Int) (g h : A) (n K value a b 
     cheatRound (𝔾) hash g h value a b rnd (mstOf rnd.w value a b - rnd.m1 - rnd.m4 * rnd.m4 + K * n) s t = true := by
   have hK : (K * n) • g = 0 := by rw [mul_smul, hn, smul_zero]
   unfold cheatRound
-  simp only [rangeCommitWith, RangePriv.response, rangeCheck, pow_ofAdd, ofAdd_mul, ofAdd_div, ofAdd_eq,
+  simp only [attestAlgebra, RangePriv.response, rangeCheck, pow_ofAdd, ofAdd_mul, ofAdd_div, ofAdd_eq,
     Bool.and_eq_true, decide_eq_true_eq]
-  refine ⟨⟨⟨⟨⟨⟨⟨⟨⟨?_, ?_⟩, ?_⟩, ?_⟩, ?_⟩, ?_⟩, ?_⟩, ?_⟩, ?_⟩, ?_⟩
-  · apply el_complete' <;> first | trivial | module
-  · apply sqr_complete'; first | trivial | module
-  · apply sqr_complete'; rw [← sub_eq_zero]; refine Eq.trans ?_ (neg_eq_zero.mpr hK); unfold mstOf; module
-  · first | trivial | module
-  · first | trivial | module
-  · first | trivial | module
-  · rw [← sub_eq_zero]; refine Eq.trans ?_ hK; unfold mstOf; module
-  · rw [← sub_eq_zero]; refine Eq.trans ?_ hK; unfold mstOf; module
-  · exact hx
-  · exact hy
+  repeat' apply And.intro
+  all_goals first
+    | trivial
+    | exact hx
+    | exact hy
+    | (apply el_complete' <;> first | trivial | module)
+    | (apply sqr_complete'; first | trivial | module)
+    | (apply sqr_complete'; rw [← sub_eq_zero]; refine Eq.trans ?_ (neg_eq_zero.mpr hK); unfold mstOf; module)
+    | module
+    | (rw [← sub_eq_zero]; refine Eq.trans ?_ hK; unfold mstOf; module)
 
 
 omit [DecidableEq A] in
